@@ -247,7 +247,7 @@ impl WorkerPool {
         let timeout = Duration::from_millis(config.timeout_ms);
 
         loop {
-            if shutdown_flag.load(Ordering::Relaxed) {
+            if shutdown_flag.load(Ordering::Relaxed) && rx.is_empty() {
                 debug!("TLS worker {} received shutdown signal", worker_id);
                 break;
             }
